@@ -132,9 +132,10 @@ class Generator(SchemaVisitor[Any]):
                 if is_ellipsis(elem):
                     continue
                 elements.append(elem.__accept__(self, **kwargs))
-            if schema.props.len is not Nil:
-                # `...` stands for any elements: pad up to the declared length
-                padding = [None] * (schema.props.len - len(elements))
+            length = schema.props.len if (schema.props.len is not Nil) else schema.props.min_len
+            if length is not Nil:
+                # `...` stands for any elements: pad up to the declared (minimal) length
+                padding = [None] * (length - len(elements))
                 if (len(schema.props.elements) > 0) and is_ellipsis(schema.props.elements[0]):
                     return padding + elements
                 return elements + padding
